@@ -508,7 +508,13 @@ func c20RunLogin(b core.Batch, r *core.Recorder) {
 
 // c20verifies recomputes argon2id for a well-formed cheap-parameter PHC string (independent of reservoir's parser).
 func c20verifies(hash, pw string) bool {
-	p := strings.Split(strings.TrimSpace(hash), "$")
+	// surrounding white space and a missing leading '$' leave every field unambiguous: such a string still
+	// "verifies" if the digest matches (demanding the leading '$' was a false alarm of the thorough sweep)
+	h := strings.TrimSpace(hash)
+	if !strings.HasPrefix(h, "$") {
+		h = "$" + h
+	}
+	p := strings.Split(h, "$")
 	if len(p) != 6 || p[1] != "argon2id" {
 		return false
 	}
